@@ -169,6 +169,7 @@ func fbb.(*Message).SetDate(m, t) ()
 ghost var gBodyBytes []byte
 ghost var gLenStr string
 ghost var gEncName string
+ghost var gCharsetName string
 ghost var gFileHdr string
 
 func fbb.(*Message).SetBodyWithCharset(m, charset, body) (err)
@@ -185,6 +186,10 @@ func fbb.(*Message).AddFile(m, f) ()
   props C09
   requires msg: m != nil && f != nil && m.Header != nil
   at append requires appended-last: len($1) == 1 && $1[0] == f && same($0, m.files)
+  # the name is converted to the default charset first and that conversion is what gets word-encoded
+  call fbb.toCharset requires of-the-file-name: streq($0, DefaultCharset) && same($1, f.name)
+  call fbb.toCharset set gCharsetName := $r0
+  call mime.(WordEncoder).Encode requires converted-name: streq($1, DefaultCharset) && same($2, gCharsetName)
   call mime.(WordEncoder).Encode set gEncName := $r0
   call fmt.Sprintf requires size-and-name: $0 == "%d %s" && len($1) == 2 && unbox($1[0]) == len(f.data) && same(unbox($1[1]), gEncName)
   call fmt.Sprintf set gFileHdr := $r0
@@ -214,7 +219,7 @@ func fbb.trimLeftSpace(r) ()
 func fbb.NewMessage(t, mycall) (m)
   props C09
   trusted
-  ensures nonnil: m != nil
+  ensures nonnil: m != nil && m.Header != nil
 
 # SetBody fails only if the default charset (ISO-8859-1) is not registered
 func fbb.(*Message).SetBody(m, body) (err)
@@ -222,9 +227,16 @@ func fbb.(*Message).SetBody(m, body) (err)
   trusted
   ensures charset-registered: err == nil
 
+# the subject is converted to the default charset, that conversion is word-encoded, and the
+# result becomes the Subject header
 func fbb.(*Message).SetSubject(m, str) ()
   props C09
-  trusted
+  requires msg: m != nil && m.Header != nil
+  call fbb.toCharset requires of-the-subject: streq($0, DefaultCharset) && same($1, str)
+  call fbb.toCharset set gCharsetName := $r0
+  call mime.(WordEncoder).Encode requires converted-subject: streq($1, DefaultCharset) && same($2, gCharsetName)
+  call mime.(WordEncoder).Encode set gEncName := $r0
+  call fbb.(Header).Set requires subject-header: $1 == "Subject" && same($2, gEncName)
 
 func fbb.(*Message).AddTo(m, addr) ()
   props C09
@@ -264,6 +276,33 @@ func fbb.secureLoginResponse(challenge, password) (r)
 # the password callback registered by the application: may do anything outside this library
 extern func field:fbb.Session.secureLoginHandleFunc(addr) (password, err)
   modifies foreign
+
+# configuration setters: what the session later does is what the application configured
+func fbb.(*Session).IsMaster(s, isMaster) ()
+  props C05 C01
+  ensures stored: s.master == isMaster
+
+func fbb.(*Session).SetMOTD(s, line) ()
+  props C05
+  ensures stored: same(s.motd, line)
+
+func fbb.(*Session).SetStatusUpdater(s, updater) ()
+  props C17
+  ensures stored: s.statusUpdater == updater
+
+func fbb.(*Session).SetUserAgent(s, ua) ()
+  props C05
+  ensures stored: same(s.ua.Name, ua.Name) && same(s.ua.Version, ua.Version)
+
+func fbb.(*Session).AddAuxiliaryAddress(s, aux) ()
+  props C05 C16
+  ensures appended: len(s.localFW) == old(len(s.localFW)) + len(aux)
+
+# the registered callback is exactly what the application last set - nil withdraws it, so the
+# next challenge fails the handshake instead of answering with a stale password
+func fbb.(*Session).SetSecureLoginHandleFunc(s, f) ()
+  props C16
+  ensures stored: s.secureLoginHandleFunc == f
 
 ghost var gWroteAny bool
 ghost var gFWCount int
@@ -622,6 +661,7 @@ func fbb.(*Session).writeProposalsAnswer(s, rw, proposals) (nAccepted, err)
   requires props: forall k :: 0 <= k && k < len(proposals) ==> proposals[k] != nil
   allocbound len(proposals)
   call fmt.Fprintf requires answer-line: $1 == "FS %s\r" && len($2) == 1 && len(unbox($2[0])) == len(proposals) && (forall k :: 0 <= k && k < len(proposals) ==> unbox($2[0])[k] == proposals[k].answer)
+  at return requires every-proposal-answered [C05 C01]: $idx0 >= len(proposals) && $idx4 >= len(proposals)
   ensures no-handler: s.h == nil ==> forall k :: 0 <= k && k < len(proposals) ==> proposals[k].answer == '='
   ensures frame: forall k :: 0 <= k && k < len(proposals) ==> proposals[k] != nil
   loop 0 invariant unanswered: (forall j :: 0 <= j && j < len(unanswered) ==> 0 <= unanswered[j] && unanswered[j] < len(proposals)) && (s.h == nil ==> len(unanswered) == 0) && len(unanswered) <= $idx + 1
@@ -687,6 +727,10 @@ func fbb.(*Session).handleInbound(s, rw) (quitReceived, err)
   at append#0 set gInSum := gInSum + BSum(line, len(line)) + 13
   at return#4 requires checksum-error-only-on-mismatch [C05 C01]: their != mod(0 - gInSum, 256)
   call fbb.(*Session).writeProposalsAnswer requires block-checksum-verified [C05 C04]: their == mod(0 - gInSum, 256)
+  # every proposal of the block is looked at: success is reported only after the fetch loop has
+  # run to the end of the block (an accepted proposal behind a rejected one is still fetched)
+  at return#12 requires whole-block-fetched [C01 C02]: $idx2 >= len(proposals)
+  loop 2 invariant fetched-when-accepted [C01 C02]: $idx >= 0 && proposals[$idx].answer == '+' ==> gXferOK == proposals[$idx]
   loop 2 invariant delivering: (forall k :: 0 <= k && k < len(proposals) ==> proposals[k] != nil && proposals[k].compressedSize >= 0) && !gFailed && (s.h == nil ==> forall k :: 0 <= k && k < len(proposals) ==> proposals[k].answer != '+')
 
 # byte sum of the first n bytes of a string
@@ -724,6 +768,8 @@ func fbb.(*Session).sendOutbound(s, rw, outbound) (sent, err)
   loop 1 invariant bytes: 0 <= i && i <= len(sp) && checksum == entry(checksum) + BSum(sp, i)
   loop 2 invariant block: len(outbound) <= 5 && (forall k :: 0 <= k && k < len(outbound) ==> outbound[k] != nil && Complete(outbound[k])) && sent != nil
   loop 3 invariant block: (forall k :: 0 <= k && k < len(outbound) ==> outbound[k] != nil && Complete(outbound[k])) && sent != nil
+  # every answer of the block is acted upon: success only after the dispatch loop reached the end
+  at return#6 requires all-answers-applied [C01 C02]: $idx3 >= len(outbound)
   ensures map: sent != nil
 
 # handleOutbound (C02 confirm-before-sent, C01 sent-report, C05 FF/FQ)
